@@ -98,7 +98,8 @@ Definition lns_answer_ok (k : milp_case) : bool :=
 Definition impl_result (k : milp_case) : milp_result :=
   mkM (o_status k) (o_solution k) (o_objective k) 0 (o_solutions k).
 Definition impl_spec_check (k : milp_case) : bool :=
-  spec_check (k_eps k) (k_c k) (k_A k) (k_b k) (k_ints k)
+  spec_check (if Qleb (1 # 1000000000) (k_eps k) then k_eps k else 1 # 1000000000)    (* the code's eps, at least float round-off *)
+    (k_c k) (k_A k) (k_b k) (k_ints k)
     ((1 # 1000000) * (1 + match o_objective k with Fin o => Qabs o | _ => 0 end))   (* objective tolerance relative to |objective| *)
     (impl_result k).
 
